@@ -125,12 +125,14 @@ def check_outgoing_calls(rep, fb):
         rep.ob("own.calls-allow-listed", cr.name, not bad, "; ".join(bad[:5]) or "%d call sites, all inside allow-listed deterministic callee families" % total)
 
 
-def check_clone_bodies(rep, fb):
+def check_clone_bodies(rep, fb, crates=None):
     """C16 (ii): every Clone::clone returns a field-wise copy of *self (interpreted on the term domain)."""
     from .modes import run_plain, values_equal
     from .kernels import base_ctx, base_facts, ctr_flavors, ctr_ctx
     from .terms import Undecided
     for cr in fb.workspace():
+        if crates is not None and cr.name not in crates:
+            continue
         for im in clone_impls(cr):
             body = None
             for b in cr.bodies_of_impl(im):
